@@ -79,6 +79,8 @@ def generate(rng, tier) -> dict:
     ops = []
     for _ in range(2):
         ops.append({"gulp": max(1, rng.choice([1, 2, 3, rng.randint(1, max(1, ns)), ns, ns + rng.randint(1, 4), max(1, ns // 2), max(1, ns // 3)]))})
+    if rng.random() < 0.1:
+        ops[rng.randrange(2)]["gulp"] = None  # the gulp argument left at its default
     if rng.random() < 0.35 and N >= 2:
         # the second call asks for ANOTHER window on the same reader (same length shifted, or any other)
         if rng.random() < 0.6 and ns < N:
@@ -133,7 +135,8 @@ def fixup(sc):
     if sc["nsamps"] is not None:
         sc["nsamps"] = max(1, min(sc["nsamps"], N - sc["start"]))
     for o in sc["ops"]:
-        o["gulp"] = max(1, o["gulp"])
+        if o["gulp"] is not None:
+            o["gulp"] = max(1, o["gulp"])
         if "start" in o:
             o["start"] = max(0, min(o["start"], N - 1))
             if o["nsamps"] is not None:
@@ -169,6 +172,8 @@ def two_pass(X):
 
 def call(name, reader, params, gulp, start, nsamps):
     kw = {"gulp": gulp, "start": start, "nsamps": nsamps, "quiet": True}
+    if gulp is None:
+        del kw["gulp"]
     if name == "collapse":
         return np.asarray(reader.collapse(**kw).data)
     if name == "bandpass":
@@ -233,8 +238,11 @@ def execute(sc, ctx) -> None:
             run_pre(reader, sc["pre"], ctx)
         results = []
         windows = []
+        first_bytes = None
         for i, op in enumerate(sc["ops"]):
             gulp = op["gulp"]
+            if gulp is None:
+                ctx.probe("default-gulp")
             start = op.get("start", sc["start"])
             nsamps = op["nsamps"] if "start" in op else sc["nsamps"]
             ns = N - start if nsamps is None else nsamps
@@ -256,10 +264,11 @@ def execute(sc, ctx) -> None:
                 continue  # the shifted window is shorter than the dispersion sweep: not in the domain
             if name == "dedisperse" and md > 0:
                 ctx.probe("dedisperse:maxdelay>0")
-            g_eff, skip = gulp, 0
+            gnum = 16384 if gulp is None else gulp
+            g_eff, skip = gnum, 0
             if name == "dedisperse":
-                g_eff, skip = max(2 * md, gulp), md
-                if g_eff != gulp:
+                g_eff, skip = max(2 * md, gnum), md
+                if g_eff != gnum:
                     ctx.probe("dedisperse:gulp-raised-to-2maxdelay")
             eff = min(g_eff, ns)
             nblk = blocks_of(ns, eff, skip)
@@ -267,7 +276,7 @@ def execute(sc, ctx) -> None:
                 ctx.probe(">=3-blocks")
             if eff > skip and (ns - skip) % (eff - skip) != 0 and nblk >= 2:
                 ctx.probe("partial-last-block")
-            if gulp > ns:
+            if gnum > ns:
                 ctx.probe("gulp>range")
             if any(start < b < start + ns and (b - start) % max(1, eff - skip) != 0 for b in bounds):
                 ctx.probe("block-across-file-boundary")
@@ -316,6 +325,13 @@ def execute(sc, ctx) -> None:
                 ctx.log("call", i, name, gulp, start, ns, zlib.crc32(np.ascontiguousarray(got).tobytes()))
             ctx.probe("compared-result")
             ctx.probe(f"ok:{name}")
+            if results and not isinstance(results[0], dict) and first_bytes is not None:
+                # the array returned by the FIRST call is still held by the caller: a later call must not change it
+                if np.ascontiguousarray(results[0]).tobytes() != first_bytes:
+                    raise Violation(f"C06/{name}/held-result-changed-by-a-later-call", "", info)
+                ctx.probe("held-result-rechecked")
+            if not results and not isinstance(got, dict):
+                first_bytes = np.ascontiguousarray(got).tobytes()
             results.append(got)
             windows.append((start, ns))
         if len(results) == 2 and windows[0] == windows[1]:
